@@ -92,10 +92,19 @@ TEXTS = ['abc', 'אבג', '123', ' ', '‏', 'ابج x', '', '\U0001f600\U000103
 STEP_LIMIT = 5000000
 
 
-def plan(tier, seed):
+def _plan0(tier, seed):
     n = 96 if tier == 'quick' else 1920
     per = 450 if tier == 'quick' else 1000
     return [{'seed': seed * 7001 + i, 'n': per} for i in range(n)]
+
+
+def plan(tier, seed):
+    """... plus the shared 'lazy' units in their structural reading: iselect consumed step by step while the caller detaches, destroys,
+    replaces or wraps the element just delivered (or its neighbours); continuing the iteration must not raise (vlib/lazy.py)."""
+    units = _plan0(tier, seed)
+    k = 16 if tier == 'quick' else 160
+    units += [{'kind': 'lazy', 'theme': 'structural', 'seed': seed * 65521 + i, 'n': 60 if tier == 'quick' else 200} for i in range(k)]
+    return units
 
 
 def hostile(rng, tops):
